@@ -97,7 +97,7 @@ impl Parser {
 
         let Some(ty_node) = children.next() else {
             let var_name = ident.name();
-            return Err(vec![new_err(input.as_span(), &input.user_data().get_file_name(), format!("member variables of a class require an explicit type (hint: change `{var_name}` to `{var_name}: type`", ))]);
+            return Err(vec![new_err(input.as_span(), &input.user_data().get_source_file_name(), format!("member variables of a class require an explicit type (hint: change `{var_name}` to `{var_name}: type`", ))]);
         };
 
         let ty = Self::r#type(ty_node).to_err_vec()?;
